@@ -690,14 +690,34 @@ def loop_blocks(func, head, tails):
 
 
 def assigned_locals(func, blocks):
-    out = set()
+    """local -> None (assigned as a whole / mutably borrowed) or the set of first-level
+    field indices assigned inside `blocks`."""
+    out = {}
+
+    def whole(l):
+        out[l] = None
+
+    def place(pl):
+        l, projs = pl[1], pl[2]
+        if projs and projs[0][0] == "f" and not any(p[0] == "deref" for p in projs):
+            if l in out and out[l] is None:
+                return
+            out.setdefault(l, set()).add(projs[0][1])
+        elif projs and any(p[0] == "deref" for p in projs):
+            # a write through a pointer held in l does not change l itself
+            return
+        else:
+            whole(l)
+
     for b in blocks:
         ps, pt = stmts_of(func.blocks[b])
         for st in ps:
             if st[0] in ("assign", "setdisc"):
-                out.add(st[1][1])
+                place(st[1])
             if st[0] == "assign" and st[2][0] in ("refmut", "rawrefmut"):
-                out.add(st[2][1][1])
+                pl = st[2][1]
+                if not any(p[0] == "deref" for p in pl[2]):
+                    whole(pl[1])
         if pt[0] == "call" and pt[1] is not None:
-            out.add(pt[1][1])
+            place(pt[1])
     return out
